@@ -9,6 +9,10 @@ L1.5 real Subprocess objects in a real ProcessGroup over a small simulated kerne
      delivery through group.get_dispatchers(), exit with or without data still in the pipe, reap (Subprocess.finish),
      respawn.  Monitor: every log file holds exactly the bytes its own process wrote on that channel (regression
      for F11: descriptor reuse after a failed fork).
+L2   the unmodified Supervisor.runforever over harness/simkernel.py: children made to write tagged bytes (capture tags
+     included), exits with data still in the pipe, autorestart respawns, fork/pipe faults followed by spawns that reuse
+     the descriptor numbers, start/stop RPCs; monitor mon_c07: real per-process log files and PROCESS_LOG /
+     PROCESS_COMMUNICATION events against the bytes written per child (regressions for F11 and F29).
 """
 import errno, os, re
 from props import _outdisp as od
@@ -21,8 +25,8 @@ GENERATED = ['OutDisp']
 TRUSTED = [
     "modelled, not verified: CPython bytes.split/find/endswith/slicing as in Model/OutDispPy.lean; the Logger/Handler plumbing",
     "the simulated kernel of the L1.5 scenarios (lowest-free descriptor allocation, a pipe reads EOF when all write ends are closed, "
-    "a read drains the pipe) -- fidelity to Linux is an assumption; system-wide routing under the real Supervisor.runforever is the "
-    "integrator's simulated kernel (harness/simkernel.py), not this check",
+    "a read drains the pipe) and harness/simkernel.py under the unmodified runforever (L2) -- fidelity to Linux is an assumption; "
+    "L2 scripts inject no read() faults and do not fragment reads below what is in the pipe (a real pipe read returns all that is available)",
     "the statement-level control flow of the hand-written models against the methods: tied by correspondence (the driver executes recordDirect, proved equal to the two-layer model the theorems use)",
 ]
 ASSUMPTIONS = [
@@ -33,7 +37,8 @@ ASSUMPTIONS = [
 RULE = ("L1 cases = (dispatcher configuration, token/ANSI/invalid-UTF-8-aware stream, fragmentation, EOF or not), corpus first; "
         "every 1-cut fragmentation of ANSI-bearing streams; interleavings of reads over three dispatchers of two processes; "
         "L1.5 scenarios = random scripts of spawn (ok / fork failure / pipe failure) / write / deliver / exit / reap over 3 processes "
-        "with redirect_stderr and capture variants. non-trivial = more than one read (L1) or at least one failed spawn followed by "
+        "with redirect_stderr and capture variants; L2 scenarios = random simkernel scripts (2-4 programs in 2 groups, tagged writes incl. capture tags "
+        "split across passes, exits, autorestart, fork/pipe faults, start/stop RPCs, 20% of ready descriptors not reported) under the real main loop. non-trivial = more than one read (L1) or at least one failed spawn followed by "
         "another spawn (L1.5); distinct = distinct (config, reads) / distinct scripts")
 
 ESC = b'\x1b['
@@ -779,7 +784,7 @@ TECHNIQUE = ("Lean 4 theorems over the dispatcher model (refinement to a referen
 LEVEL_TEXT = ("no_capture_concat, complete_at_eof, order_and_once, strip_per_read/strip_unfragmented, plog_events_match and attribution are "
               "proved for every stream, fragmentation and interleaving (no bound) over definitions regenerated from /repo; strip_ansi for "
               "fragmented escapes is a known open finding (F12, counterexample theorem); cross-process attribution with descriptor reuse is "
-              "exercised on real Subprocess objects (L1.5), not proved")
+              "exercised on real Subprocess objects (L1.5) and under the unmodified runforever on the simulated kernel (L2), not proved")
 LEVEL_NOTE = ("trusts Lean's kernel, extract.py, CPython bytes semantics as modelled, the logger plumbing, the L1.5 kernel simulation; "
-              "routing under the real main loop belongs to the simulated-kernel checks C01-C06")
+              "the L2 kernel simulation (harness/simkernel.py)")
 DESIGN_REF = "DESIGN.md section 6, C07"
